@@ -1,3 +1,41 @@
+//! Copies the architecture-specific emitters of /repo into OUT_DIR so that they compile on
+//! this x86-64 host against a shim `common` module (simulated memory).  Exactly three textual
+//! substitutions are made (DESIGN.md 4.1):
+//!   1. the `#![cfg(target_arch = ...)]` line is dropped,
+//!   2. `crate::injector_core::` becomes `super::`,
+//!   3. `target_os = "macos"` becomes `all()` (macOS variant) or `any()` (other variants).
+//! The emitters under test are the repository's own text.
+use std::fs;
+use std::path::Path;
+
 fn main() {
+    let repo = "/repo/src/injector_core";
+    let out = std::env::var("OUT_DIR").unwrap();
+    let files = ["patch_arm64.rs", "arm64_codegenerator.rs", "utils.rs", "patch_arm.rs", "patch_amd64.rs", "patch_trait.rs"];
+    for f in files {
+        println!("cargo:rerun-if-changed={repo}/{f}");
+    }
     println!("cargo:rerun-if-changed=build.rs");
+    for (variant, macos) in [("a64_linux", false), ("a64_macos", true), ("arm", false), ("x64sim", false)] {
+        let dir = Path::new(&out).join(variant);
+        fs::create_dir_all(&dir).unwrap();
+        for f in files {
+            let src = match fs::read_to_string(format!("{repo}/{f}")) {
+                Ok(s) => s,
+                Err(_) => String::from("// missing in this tree\n"),
+            };
+            let mut text = String::new();
+            for line in src.lines() {
+                if line.trim_start().starts_with("#![cfg(target_arch") {
+                    continue;
+                }
+                text.push_str(line);
+                text.push('\n');
+            }
+            let text = text
+                .replace("crate::injector_core::", "super::")
+                .replace("target_os = \"macos\"", if macos { "all()" } else { "any()" });
+            fs::write(dir.join(f), text).unwrap();
+        }
+    }
 }
